@@ -58,7 +58,9 @@ void uv__udp_close(uv_udp_t* handle) {
   uv__handle_stop(handle);
 
   if (handle->io_watcher.fd != -1) {
-    uv__close(handle->io_watcher.fd);
+    /* Don't close stdio file descriptors, same as uv__stream_close(). */
+    if (handle->io_watcher.fd > STDERR_FILENO)
+      uv__close(handle->io_watcher.fd);
     handle->io_watcher.fd = -1;
   }
 }
